@@ -1,2 +1,35 @@
-(** C08 -- theorems under construction *)
-From MX Require Import Exec.Model Exec.Spec Exec.Sim Exec.Top.
+(** C08 — reported dependencies; graph and cache agree. *)
+From Coq Require Import List ZArith Bool.
+From MX Require Import Exec.Model Exec.Spec Exec.Sim Exec.Reads Exec.Cover Exec.Quiet Exec.Edits3 Exec.Results Exec.Top.
+Import ListNotations.
+
+(** In every quiescent state reached by any history of evaluations, cache
+    hits, edits and failed evaluations ([C02_..._partial] gives [Quiet]):
+    - the elements present in the dependency graph are exactly the elements
+      holding a value (so the graph never mentions a cleared element),
+    - every edge joins two nodes of the graph, inputs have no predecessors,
+    - for every element holding a computed value, every cached element its
+      formula called (directly or through uncached cells), every uncached
+      cells it passed through, and every reference it read by attribute path
+      is recorded as a predecessor ([cov_rd]),
+    - uncached cells hold no value.
+    PARTIAL: the converse inclusion (no predecessor that was not read) and
+    acyclicity are not proved; they are checked by the correspondence and by
+    the reference-interpreter oracle on every run. *)
+Theorem C08_graph_matches_cache_partial : forall st,
+  Quiet st ->
+  (forall i, In (node_of i) (s_nodes st) <-> has st i) /\
+  (forall a b, In (a, b) (s_edges st) -> In a (s_nodes st) /\ In b (s_nodes st)) /\
+  (forall a i, In (a, node_of i) (s_edges st) -> mem_item i (s_inputs st) = false) /\
+  (forall j v, lookup_data (s_data st) j = Some v -> mem_item j (s_inputs st) = false ->
+     exists f ds, dr_own f (defs_of st) (input_data st) j = (Val v, ds) /\ Forall (cov_rd st j) ds) /\
+  (forall i, has st i -> is_cached st (fst i) = true).
+Proof. exact graph_matches_cache. Qed.
+Print Assumptions C08_graph_matches_cache_partial.
+
+(** and [Quiet] is what every history reaches *)
+Theorem C08_reachable_states_quiet : forall fuel ops st xs st',
+  run fuel st ops = (xs, st') -> no_fuel_out xs -> Quiet st -> s_reent st = false -> ops_ok ops ->
+  s_reent st' = true \/ Quiet st'.
+Proof. exact run_quiet. Qed.
+Print Assumptions C08_reachable_states_quiet.
